@@ -319,8 +319,10 @@ def evalSpec (toks : List String) (clusterOverride : Option (Option (List String
     | none => some { rejected := true, res := .err }
     | some r => some { res := r, bytes := true }
   | ["cert", _tr, kind, chains] =>
-    let k : PeerKind := if kind == "tls" then .tls else if kind == "noauth" then .noAuth else if kind == "other" then .other else .noPeer
-    some { res := certAuthenticate k ((decList chains).map chainOf), hasPeer := kind != "nopeer", tls := kind == "tls", bytes := true }
+    let k : PeerKind := if kind == "tls" || kind == "tlspeer" then .tls else if kind == "noauth" then .noAuth else if kind == "other" then .other else .noPeer
+    -- tlspeer: certificates presented but not verified - VerifiedChains is empty
+    let cs := if kind == "tlspeer" then [] else (decList chains).map chainOf
+    some { res := certAuthenticate k cs, hasPeer := kind != "nopeer", tls := kind == "tls" || kind == "tlspeer", bytes := true }
   | _ => none
 
 def showSpecRes (r : SpecRes) : String :=
